@@ -36,7 +36,9 @@ RULE_ADDED = (
               ' '
               'Round 10: a third of the genuine SGX devices hold a state whose message digest b'
               'egins or ends with a zero byte; scratch files on another file system than the te'
-              'mp directory in half the shards. ')
+              'mp directory in half the shards. '
+              ' '
+              'Round 11: devices report non-zero timestamps; the printed Timestamp is compared. ')
 RULE = RULE + " " + RULE_ADDED.strip()
 ASSUMPTIONS = [
     "the genuine-device models in pv/simdev/genuine.py (endorsement scheme two: signatures by "
